@@ -138,7 +138,7 @@ def check(run):
         rc, out, err = vlib.harness(AREA, args, run.seed, timeout=1800)
         if rc != 0:
             broken.append("harness copy failed rc=%s: %s" % (rc, err[-400:]))
-        recs = [json.loads(l) for l in out.splitlines() if l.strip()]
+        recs = [json.loads(l) for l in out.split("\n") if l.strip()]
     try:
         table = json.load(open(table_path))
     except Exception:
